@@ -111,48 +111,73 @@ class LayoutRule(BaseRule):
 
 
 def run(ctx):
+    from ..rows import GenRule, effect_rows, private_helpers
+    from ..terms import K, T, destruct, is_opaque, norm, occurs_only_under, subterms
+
     m, fold = ctx.model, ctx.fold
     ctx.assume("A1")
     ctx.decline("parsing the produced body back with an independent multipart parser (byte-level round trip)")
 
-    R1 = ctx.rule("C20-R1", "sanitizer on every flow: field name and filename reach a header only through _render_parts -> _render_part -> the header formatter, whose default is format_multipart_header_param", "E6")
-    R2 = ctx.rule("C20-R2", "escape table: CR, LF and double quote are percent-encoded and the value is wrapped in double quotes", "E2")
-    R3 = ctx.rule("C20-R3", "layout: per field exactly delimiter line, rendered headers, data, CRLF - then the closing delimiter; str data UTF-8 encoded, bytes unchanged; header block ends with an empty line", "E4")
-    R4 = ctx.rule("C20-R4", "one boundary: the same definition reaches every delimiter and the returned content type", "E6")
-    R5 = ctx.rule("C20-R5", "request_encode_body sends the body with the content type the encoder returned", "E6")
+    R1 = ctx.rule("C20-R1", "sanitizer on every flow: field name and filename reach a header only through _render_parts -> _render_part -> the header formatter, whose default is format_multipart_header_param", "E10 effect rows + term taint (a source atom may occur only under the allowed wrapper)")
+    R2 = ctx.rule("C20-R2", "escape table: CR, LF and double quote are percent-encoded and the value is wrapped in double quotes", "E4 sanitizer typestate + E7")
+    R3 = ctx.rule("C20-R3", "layout: per field exactly delimiter line, rendered headers, data, CRLF - then the closing delimiter; str data UTF-8 encoded, bytes unchanged; header block ends with an empty line", "E10 effect rows (ordered writes as terms)")
+    R4 = ctx.rule("C20-R4", "one boundary: the same definition reaches every delimiter and the returned content type", "E10 effect rows")
+    R5 = ctx.rule("C20-R5", "request_encode_body sends the body with the content type the encoder returned", "E10 effect rows")
 
     cls = m.cls(RF)
-    # ---------------- R1
-    n = 0
+    helpers = private_helpers(m, FL, RF, exclude=("_render_parts", "_render_part"))
+
+    # ---------------- R1: taint discipline over terms
+    SRC = ("self._name", "self._filename")
+
+    def tainted_terms(rows):
+        for r in rows:
+            for e in r.ev:
+                for x in e:
+                    if isinstance(x, str):
+                        yield r, x
+            if r.ret:
+                yield r, r.ret
+
+    n_src = 0
     for name, fi in sorted(cls.methods.items()):
-        for node in astq.walk_fn(fi.node):
-            if isinstance(node, ast.Attribute) and astq.is_self_attr(node) and node.attr in ("_name", "_filename") and isinstance(node.ctx, ast.Load):
-                n += 1
-                # must sit inside the argument of self._render_parts(...)
-                ok = False
-                for a in astq.ancestors(node):
-                    if isinstance(a, ast.Call) and astq.call_text(a) == "self._render_parts":
-                        ok = True
-                        break
-                ctx.ob(R1, fi.qual, f"read of self.{node.attr} in `{astq.text(astq.stmt_of(node))[:60]}`", ok,
-                       "" if ok else "the raw name/filename is used outside the escaping route: quotes or CR/LF in it can break out of the parameter", node=node)
-    ctx.sites(R1, n, 2, "reads of _name/_filename")
+        if name in ("__init__", "from_tuples"):
+            continue  # construction only stores the raw values
+        rows = effect_rows(ctx, fi, GenRule(ctx, FL, inline=helpers, pure_self=("_render_parts", "_render_part", "header_formatter")), RF)
+        seen = set()
+        for r, t in tainted_terms(rows):
+            for src in SRC:
+                if src in t and (name, t, src) not in seen:
+                    seen.add((name, t, src))
+                    n_src += 1
+                    ok = occurs_only_under(t, src, {"self._render_parts"})
+                    ctx.ob(R1, fi.qual, f"{src} occurs only inside self._render_parts(...) in {t[:80]}", ok,
+                           "" if ok else "the raw name/filename is used outside the escaping route: quotes or CR/LF in it can break out of the parameter", witness=r.witness(), node=fi.node)
+    ctx.sites(R1, n_src, 2, "terms mentioning _name / _filename")
     rp = m.method(RF, "_render_parts")
-    appends = [c for c in astq.calls(rp.node) if isinstance(c.func, ast.Attribute) and c.func.attr == "append"]
-    ctx.sites(R1, len(appends), 1, "append in _render_parts")
-    for c in appends:
-        ok = c.args and isinstance(c.args[0], ast.Call) and astq.call_text(c.args[0]) == "self._render_part" and len(c.args[0].args) == 2
-        ctx.ob(R1, rp.qual, f"`{astq.text(c)}` renders through _render_part", bool(ok), "" if ok else "a header part is assembled without the formatter", node=c)
-    rets = [r for r in astq.walk_fn(rp.node) if isinstance(r, ast.Return)]
-    plist = {astq.text(a.func.value) for a in appends}
-    ok = all(isinstance(r.value, ast.Call) and isinstance(r.value.func, ast.Attribute) and r.value.func.attr == "join" and astq.text(r.value.args[0]) in plist for r in rets) and rets and len(plist) == 1
-    ctx.ob(R1, rp.qual, "result is the join of the rendered parts only", bool(ok))
+    rows = [r for r in effect_rows(ctx, rp, GenRule(ctx, FL, inline=helpers, pure_self=("_render_part",)), RF) if r.returns]
+    ctx.sites(R1, len(rows), 1, "returning rows of _render_parts")
+    seen = set()
+    n_rendered = 0
+    for r in rows:
+        t = r.ret
+        if t in seen:
+            continue
+        seen.add(t)
+        # every element of the iterable that reaches the result does so as self._render_part(<name>, <value>) of ONE pair
+        elems = [x for x in subterms(t) if destruct(x)[0] in ("each0", "each1", "idx") and ("p:header_parts" in x)]
+        ok = all(occurs_only_under(t, x, {"self._render_part"}) for x in elems)
+        calls = [x for x in subterms(t) if destruct(x)[0] == "self._render_part"]
+        pair_ok = all(len(destruct(c)[1]) == 2 and destruct(c)[1][0].replace("each0", "E").replace("idx(", "E(") != destruct(c)[1][1] for c in calls)
+        n_rendered += len(calls)
+        ctx.ob(R1, rp.qual, f"header parts reach the result only as self._render_part(name, value): {t[:90]}", ok and pair_ok,
+               "" if ok and pair_ok else "a header part is assembled without the formatter", witness=r.witness(), node=rp.node)
+    ctx.sites(R1, n_rendered, 1, "self._render_part(...) terms in the result of _render_parts")
     r1 = m.method(RF, "_render_part")
-    rets = [r for r in astq.walk_fn(r1.node) if isinstance(r, ast.Return)]
-    p = r1.params()
-    ok = len(rets) == 1 and isinstance(rets[0].value, ast.Call) and astq.call_text(rets[0].value) == "self.header_formatter" \
-        and [astq.text(a) for a in rets[0].value.args] == p[:2]
-    ctx.ob(R1, r1.qual, "_render_part delegates (name, value) to the header formatter", ok, astq.text(rets[0]) if rets else "")
+    rows = [r for r in effect_rows(ctx, r1, GenRule(ctx, FL, inline=helpers, pure_self=("header_formatter",)), RF) if r.returns]
+    p = ["p:" + x for x in r1.params()[:2]]
+    ok = bool(rows) and all(r.ret == T("self.header_formatter", *p) for r in rows)
+    ctx.ob(R1, r1.qual, "_render_part delegates (name, value) to the header formatter", ok, "; ".join(r.ret for r in rows)[:120])
     init = m.method(RF, "__init__")
     stores = [(n.value, n) for n in astq.walk_fn(init.node) if isinstance(n, ast.Assign) and astq.is_self_attr(n.targets[0], "header_formatter")]
     ctx.sites(R1, len(stores), 1, "header_formatter stores")
@@ -160,90 +185,125 @@ def run(ctx):
     ok = len(dflt) == 1 and m.resolve_name(init.module, dflt[0]) == f"{FL}.format_multipart_header_param"
     ctx.ob(R1, init.qual, "default header formatter is format_multipart_header_param", ok, "; ".join(astq.text(v) for v in dflt))
     mm = m.method(RF, "make_multipart")
-    cd = [n for n in astq.walk_fn(mm.node) if isinstance(n, ast.Assign) and isinstance(n.targets[0], ast.Subscript)
-          and isinstance(n.targets[0].slice, ast.Constant) and n.targets[0].slice.value == "Content-Disposition"]
-    ctx.sites(R1, len(cd), 1, "Content-Disposition store")
-    for nnode in cd:
-        srcs = astq.sources_of(mm.node, nnode.value)
-        txt = " ".join(astq.text(s) for s in srcs)
-        ok = "self._render_parts(" in txt and "self._name" in txt and "self._filename" in txt
-        ctx.ob(R1, mm.qual, "Content-Disposition is built from _render_parts((name, filename))", ok, txt[:120], node=nnode)
+
+    from ..terms import term_of as term_of_
+    rows = [r for r in effect_rows(ctx, mm, GenRule(ctx, FL, inline=helpers, pure_self=("_render_parts",)), RF) if r.returns]
+    cds = [(r, e) for r in rows for e in r.events("setitem") if e[2] == K("Content-Disposition")]
+    ctx.sites(R1, len(cds), 1, "Content-Disposition stores")
+    seen = set()
+    want_rp = T("self._render_parts", T("tuple", T("tuple", K("name"), "self._name"), T("tuple", K("filename"), "self._filename")))
+    for r, e in cds:
+        v = norm(e[3])
+        if v in seen:
+            continue
+        seen.add(v)
+        op, args = destruct(v)
+        ok = False
+        if op == "cat" and len(args) >= 2 and args[-1] in (want_rp, want_rp.replace("tuple(tuple", "list(tuple", 1)):
+            sep_c = destruct(args[-2])
+            ok = sep_c[0] == "const" and isinstance(sep_c[1], str) and sep_c[1].endswith("; ") and (len(args) == 2 or "p:content_disposition" in args[0])
+        ctx.ob(R1, mm.qual, f"Content-Disposition = <type>; _render_parts((name, filename)): {v[:100]}", bool(ok), "" if ok else "the header is not the disposition type followed by `; ` and the rendered (name, filename) pairs", witness=r.witness(), node=mm.node)
 
     # ---------------- R2 (path-sensitive: the value reaches the result escaped on EVERY path)
     _run_r2(ctx, R2)
 
-    # ---------------- R3 / R4
+    # ---------------- R3 / R4: ordered writes of encode_multipart_formdata as terms
     enc = m.func(f"{FP}.encode_multipart_formdata")
     bparam = "boundary"
     if bparam not in enc.params():
         raise AnalysisError("encode_multipart_formdata has no boundary parameter")
-    rule = LayoutRule({bparam})
-    outs, it = run_function(m, enc, rule, params={bparam: AV("unk", sym="boundary-arg")}, record_decisions=True)
-    ctx.states += it.budget.steps
-    if not rule.iters:
-        raise AnalysisError("C20-R3: loop over the fields not found")
-    for text, st, node in rule.viol:
-        ctx.ob(R3, enc.qual, text, False, "", witness=st.witness(), node=node)
-    nn = 0
-    for o in outs:
-        if o.kind != "return":
-            continue
-        nn += 1
-        rule._check_iter(o.st, enc.node)
-        after = o.st.ts.get("after", ())
-        before = o.st.ts.get("before", ())
-        ok = after == ("close",) and before == ()
-        ctx.ob(R3, enc.qual, f"after the loop: {after}; before: {before}", ok,
-               "" if ok else "the body does not end with exactly one closing delimiter (or something precedes the first delimiter)", witness=o.st.witness(), node=enc.node)
-    ctx.sites(R3, nn, 1, "returning paths of encode_multipart_formdata")
-    if not [v for v in rule.viol]:
-        ctx.ob(R3, enc.qual, "every part is (delimiter, headers, data, CRLF); str via UTF-8 writer, bytes raw", True)
-    # the text writer is UTF-8
+    fp_helpers = private_helpers(m, FP, exclude=())
+
+    class Enc(GenRule):
+        def call_hook(self, it, st, node, recv, pos, kw):
+            f = node.func
+            t = ast.unparse(f)
+            if isinstance(f, ast.Attribute) and f.attr == "write" and pos:
+                # writer(buf).write(s)  ==  buf.write(s.encode("utf-8"))
+                if recv is not None and recv.sym and recv.sym.startswith("writer("):
+                    buf = destruct(recv.sym)[1][0]
+                    val = T("encode", term_of_(pos[0]), K("utf-8"))
+                else:
+                    buf = term_of_(recv) if recv is not None else "?"
+                    val = term_of_(pos[0])
+                s = st.copy()
+                self.ev(s, "write", buf, val)
+                return [Out("normal", s, UNK)]
+            if t == "BytesIO" and not pos:
+                return [Out("normal", st, AV("unk", sym="buf", none=False, truth=True))]
+            if t == "writer" and len(pos) == 1:
+                return [Out("normal", st, AV("unk", sym=T("writer", term_of_(pos[0])), none=False, truth=True))]
+            if t == "choose_boundary":
+                return [Out("normal", st, AV("unk", sym="random-boundary", none=False, truth=True))]
+            if t == "iter_field_objects":
+                return [Out("normal", st, AV("unk", sym=T("fields", term_of_(pos[0]) if pos else "?"), none=False))]
+            return super().call_hook(it, st, node, recv, pos, kw)
+
+    rows = [r for r in effect_rows(ctx, enc, Enc(ctx, FP, inline=fp_helpers), None) if r.returns]
+    ctx.sites(R3, len(rows), 2, "returning rows of encode_multipart_formdata")
     w = fold.try_module_const(FP, "writer")
     wstmt = m.assigns.get(FP, {}).get("writer")
     ok = bool(wstmt) and astq.text(wstmt[-1].value).replace("'", '"') == 'codecs.lookup("utf-8")[3]'
     ctx.ob(R3, FP, "text writer is the UTF-8 stream writer", ok, astq.text(wstmt[-1].value) if wstmt else "missing")
-    rh = m.method(RF, "render_headers")
-    body = [s for s in rh.node.body if not isinstance(s, ast.Expr) or not isinstance(getattr(s, "value", None), ast.Constant)]
-    ok = False
-    if len(body) >= 2 and isinstance(body[-1], ast.Return) and isinstance(body[-1].value, ast.Call) and isinstance(body[-1].value.func, ast.Attribute) \
-            and body[-1].value.func.attr == "join" and getattr(body[-1].value.func.value, "value", None) == "\r\n" and isinstance(body[-2], ast.Expr) and isinstance(body[-2].value, ast.Call):
-        ln_ = astq.text(body[-1].value.args[0])
-        ap = body[-2].value
-        ok = astq.call_text(ap) == f"{ln_}.append" and getattr(ap.args[0], "value", None) == "\r\n"
-    ctx.ob(R3, rh.qual, "header block ends with an empty line", ok, "; ".join(astq.text(s)[:50] for s in body[-2:]))
+    FIELDS = T("fields", "p:fields")
+    FLD = T("each", FIELDS)
+    seen = set()
+    full_iter = 0
+    for r in rows:
+        B = "p:boundary" if r.is_none("p:boundary") is False else ("random-boundary" if r.is_none("p:boundary") is True else None)
+        ws = [(norm(e[2]), e[3] if len(e) > 3 else ()) for e in r.events("write")]
+        key = (B, tuple(ws), r.ret)
+        if key in seen:
+            continue
+        seen.add(key)
+        if B is None:
+            ctx.ob(R4, enc.qual, "the boundary is decided (given or random) before anything is written", False, "a row writes without knowing which boundary is in use", witness=r.witness(), node=enc.node)
+            continue
 
-    # R4
-    assigns = [n for n in astq.walk_fn(enc.node) if isinstance(n, ast.Assign) and any(isinstance(t, ast.Name) and t.id == bparam for t in n.targets)]
-    for a in assigns:
-        g = astq.enclosing(a, ast.If)
-        in_loop = astq.enclosing(a, (ast.For, ast.While)) is not None
-        ok = g is not None and astq.text(g.test) == f"{bparam} is None" and not in_loop and astq.call_text(a.value) == "choose_boundary" if isinstance(a.value, ast.Call) else False
-        ctx.ob(R4, enc.qual, f"boundary (re)definition `{astq.text(a)}`", ok,
-               "" if ok else "the boundary changes between delimiters or between body and content type", node=a)
-    uses = []
-    for node in astq.walk_fn(enc.node):
-        if isinstance(node, ast.JoinedStr):
-            fmts = [astq.text(v.value) for v in node.values if isinstance(v, ast.FormattedValue)]
-            lits = "".join(v.value for v in node.values if isinstance(v, ast.Constant))
-            uses.append((lits, fmts, node))
-    ctx.sites(R4, len(uses), 3, "boundary interpolations")
-    for lits, fmts, node in uses:
-        ok = fmts == [bparam]
-        ctx.ob(R4, enc.qual, f"`{astq.text(node)[:50]}` interpolates the one boundary", ok, node=node)
-    ct = [u for u in uses if "boundary=" in u[0]]
-    ok = len(ct) == 1 and ct[0][0] == "multipart/form-data; boundary="
-    ctx.ob(R4, enc.qual, "content type is multipart/form-data; boundary=<the boundary>", ok)
-    rets = [r for r in astq.walk_fn(enc.node) if isinstance(r, ast.Return)]
-    for r in rets:
-        ok = isinstance(r.value, ast.Tuple) and len(r.value.elts) == 2
-        if ok:
-            srcs = astq.sources_of(enc.node, r.value.elts[1])
-            ok = len(srcs) == 1 and ct and srcs[0] is ct[0][2]
-            bodies = set(astq.assigned_from(enc.node, lambda v: isinstance(v, ast.Call) and astq.call_text(v) == "BytesIO"))
-            e0 = r.value.elts[0]
-            ok = ok and isinstance(e0, ast.Call) and isinstance(e0.func, ast.Attribute) and e0.func.attr == "getvalue" and astq.text(e0.func.value) in bodies
-        ctx.ob(R4, enc.qual, "returns (body bytes, that content type)", bool(ok), astq.text(r), node=r)
+        def enc_lit(*parts):
+            return norm(T("cat", *parts))
+        delim = {T("encode", enc_lit(K("--"), B, K("\r\n")), K(e_)) for e_ in ("latin-1", "utf-8", "ascii")}
+        close = {T("encode", enc_lit(K("--"), B, K("--\r\n")), K(e_)) for e_ in ("latin-1", "utf-8", "ascii")}
+        hdrs = T("encode", T(f"{FLD}.render_headers"), K("utf-8"))
+        inloop = [(v, lp) for v, lp in ws if lp and lp[0] == "in" and FIELDS in lp]
+        after = [(v, lp) for v, lp in ws if not lp]
+        other = [(v, lp) for v, lp in ws if lp and not (lp[0] == "in" and FIELDS in lp)]
+        ok_after = len(after) == 1 and after[0][0] in close and ws and ws[-1] == after[0]
+        ctx.ob(R3, enc.qual, f"outside the loop exactly the closing delimiter is written, last ({len(after)} write(s))", ok_after and not other,
+               "" if ok_after and not other else f"writes outside the per-field loop: {[v[:60] for v, _ in after + other]}: the body must end with exactly one closing delimiter and nothing may precede the first delimiter", witness=r.witness(), node=enc.node)
+        if inloop:
+            full_iter += 1
+            vals = [v for v, _ in inloop]
+            is_str = None
+            data_t = f"{FLD}.data"
+            for k_, v_ in r.st.ts.items():
+                if isinstance(k_, tuple) and k_[0] == "isinst" and any("str" in (c or "") for c in k_[2]) and (k_[1] == data_t or k_[1] == T("str", data_t)):
+                    is_str = v_ if is_str is None else (is_str or v_)
+            is_int = r.isinst(data_t, "int")
+            d = data_t if not is_int else T("str", data_t)
+            if is_int is True or is_str is True:
+                want_data = T("encode", d, K("utf-8"))
+            else:
+                want_data = d
+            ok = len(vals) == 4 and vals[0] in delim and vals[1] == hdrs and vals[2] == want_data and vals[3] == K(b"\r\n")
+            why = ""
+            if not ok:
+                why = f"one part is written as {[v[:50] for v in vals]} instead of (delimiter, UTF-8 headers, data [{want_data}], CRLF)"
+            ctx.ob(R3, enc.qual, f"one part = delimiter, headers, data ({'text, UTF-8' if want_data != d or is_int else 'bytes, unchanged'}), CRLF", ok, why, witness=r.witness(), node=enc.node)
+        # R4: the returned content type names the same boundary
+        op, args = destruct(r.ret or "")
+        ct_ok = op == "tuple" and len(args) == 2 and norm(args[1]) == enc_lit(K("multipart/form-data; boundary="), B) and args[0] in (T("buf.getvalue"),)
+        ctx.ob(R4, enc.qual, f"returns (the buffer's bytes, multipart/form-data; boundary=<{B}>)", ct_ok, "" if ct_ok else f"returns {r.ret}", witness=r.witness(), node=enc.node)
+    ctx.sites(R3, full_iter, 2, "rows that write a part")
+    rh = m.method(RF, "render_headers")
+    rows = [r for r in effect_rows(ctx, rh, GenRule(ctx, FL, inline=helpers), RF) if r.returns]
+    ok = bool(rows)
+    for r in rows:
+        op, args = destruct(r.ret)
+        lst = args[1] if op == "join" and len(args) == 2 else ""
+        lop, largs = destruct(lst)
+        ok = ok and op == "join" and args[0] == K("\r\n") and lop == "list" and largs and largs[-1] == K("\r\n")
+    ctx.ob(R3, rh.qual, "header block is the lines joined by CRLF and ends with an empty line", ok, "; ".join(r.ret[-80:] for r in rows[:2]))
     cb = m.func(f"{FP}.choose_boundary")
     txt = astq.text(cb.node)
     ok = "os.urandom(16)" in txt and "hexlify" in txt
@@ -251,25 +311,31 @@ def run(ctx):
 
     # ---------------- R5
     reb = m.func("urllib3._request_methods.RequestMethods.request_encode_body")
-    calls = [c for c in astq.calls(reb.node) if astq.call_text(c) == "encode_multipart_formdata"]
-    ctx.sites(R5, len(calls), 1, "encode_multipart_formdata call")
-    for c in calls:
-        st = astq.stmt_of(c)
-        ok = isinstance(st, ast.Assign) and isinstance(st.targets[0], ast.Tuple) and len(st.targets[0].elts) == 2
-        body_n, ct_n = ([astq.text(e) for e in st.targets[0].elts] if ok else (None, None))
-        ctx.ob(R5, reb.qual, "(body, content_type) are taken from one encoder call", ok, astq.text(st)[:80], node=c)
-        b = astq.kwarg(c, "boundary")
-        ctx.ob(R5, reb.qual, "caller's multipart_boundary is forwarded", b is not None and astq.text(b) == "multipart_boundary", node=c)
-    hdr = [c for c in astq.calls(reb.node) if isinstance(c.func, ast.Attribute) and c.func.attr in ("setdefault", "__setitem__") and c.args and isinstance(c.args[0], ast.Constant) and c.args[0].value == "Content-Type"]
-    hdr_st = [n for n in astq.walk_fn(reb.node) if isinstance(n, ast.Assign) and isinstance(n.targets[0], ast.Subscript) and isinstance(n.targets[0].slice, ast.Constant) and n.targets[0].slice.value == "Content-Type"]
-    ctx.sites(R5, len(hdr) + len(hdr_st), 1, "Content-Type header store")
-    for c in hdr:
-        kwd = set(astq.assigned_from(reb.node, lambda v: isinstance(v, ast.Dict)))
-        fv = c.func.value
-        ok = len(c.args) > 1 and astq.text(c.args[1]) == ct_n and isinstance(fv, ast.Subscript) and astq.text(fv.value) in kwd and getattr(fv.slice, "value", None) == "headers"
-        ctx.ob(R5, reb.qual, "the Content-Type header of the outgoing request carries the encoder's content type", ok, astq.text(c), node=c)
-    bst = [n for n in astq.walk_fn(reb.node) if isinstance(n, ast.Assign) and isinstance(n.targets[0], ast.Subscript) and isinstance(n.targets[0].slice, ast.Constant) and n.targets[0].slice.value == "body"]
-    ctx.ob(R5, reb.qual, "the encoded body is what is sent", len(bst) == 1 and astq.text(bst[0].value) == body_n)
+    RM = "urllib3._request_methods"
+
+    rm_helpers = private_helpers(m, RM, "urllib3._request_methods.RequestMethods", exclude=())
+    rows = [r for r in effect_rows(ctx, reb, GenRule(ctx, RM, inline=rm_helpers, pure_self=()), "urllib3._request_methods.RequestMethods") if r.returns]
+    n5 = 0
+    seen = set()
+    for r in rows:
+        encs = [e for e in r.events("call") if e[1] == "encode_multipart_formdata"]
+        if not encs:
+            continue
+        e = encs[0]
+        call_t = T("encode_multipart_formdata", *e[2:]) if not (e[-1] and isinstance(e[-1], tuple)) else T("encode_multipart_formdata", *e[2:-1])
+        key = (call_t, tuple(x for x in r.ev if x[0] in ("setitem", "call") and ("Content-Type" in str(x) or "body" in str(x))))
+        if key in seen:
+            continue
+        seen.add(key)
+        n5 += 1
+        ctx.ob(R5, reb.qual, "caller's multipart_boundary is forwarded to the encoder", "boundary=p:multipart_boundary" in call_t or call_t.endswith(",p:multipart_boundary)"), call_t, witness=r.witness(), node=reb.node)
+        body_t, ct_t = T("idx", call_t, "0"), T("idx", call_t, "1")
+        evs_txt = " ".join(str(x) for x in r.ev)
+        ok_ct = any(ct_t in str(x) and "Content-Type" in str(x) for x in r.ev)
+        ctx.ob(R5, reb.qual, "the Content-Type header of the outgoing request carries the encoder's content type", ok_ct, "" if ok_ct else f"events {evs_txt[:200]}", witness=r.witness(), node=reb.node)
+        ok_b = any(x[0] == "setitem" and x[2] == K("body") and x[3] == body_t for x in r.ev) or any(x[0] == "call" and x[1] == "self.urlopen" and f"body={body_t}" in str(x) for x in r.ev)
+        ctx.ob(R5, reb.qual, "the encoded body is what is sent", ok_b, "" if ok_b else f"events {evs_txt[:200]}", witness=r.witness(), node=reb.node)
+    ctx.sites(R5, n5, 1, "rows of request_encode_body that encode multipart")
 
 
 # ---------------------------------------------------------------------------- R2
